@@ -1,3 +1,1575 @@
-//! C46 — stub, to be implemented.
-use vcore::Ctx;
-pub fn run(_ctx: &mut Ctx) {}
+//! C46 — Identify only reports authenticated peer information.
+//!
+//! Statement: "Identify reports information for a connection only if its public key derives the
+//! connection's peer id, uses listen addresses from a signed peer record only if that record is
+//! validly signed by the same peer, and never reports listen addresses that name a different
+//! /p2p peer."
+//!
+//! Two sub-checks:
+//!
+//! * `world` — an honest `identify::Behaviour` (wrapped in a transparent spy that copies what the
+//!   behaviour hands to the swarm) inside a real `Swarm` over the simulated transport/muxer. The
+//!   harness plays every remote peer by hand on raw substreams: it answers the `/ipfs/id/1.0.0`
+//!   request and opens `/ipfs/id/push/1.0.0` streams with hand-encoded protobuf messages that
+//!   carry generated lies. Every address / agent string carries the index of the message it was
+//!   sent in, so each reported datum can be traced to its source.
+//! * `parse` — the receive path (`recv_identify` / `recv_push` through the cfg(libp2p_verif)
+//!   shim), the handler's acceptance test and the behaviour's address filter driven directly with
+//!   many more messages, including byte-mutated and arbitrary ones (must never panic).
+//!
+//! Oracle (exactly the statement, "only if" direction; plus an acceptance requirement for fully
+//! honest messages so that the check cannot pass vacuously):
+//!  (1) every `Received { peer_id, info }` has `info.public_key.to_peer_id() == peer_id` == the
+//!      peer the transport authenticated on that connection, and nothing that was sent in a
+//!      message carrying a decodable *foreign* key is ever reported;
+//!  (2) a reported listen address that was sent inside a signed peer record is only reported if
+//!      that record is valid for the connection's peer (independent verification: signature over
+//!      domain/payload-type/payload by the envelope key, legacy domain and payload type, record
+//!      peer id == signer == connection peer, all addresses parse); a reported
+//!      `signed_peer_record` must itself verify for that peer;
+//!  (3) no reported listen address (event, `NewExternalAddrOfPeer`, dial cache) has a last
+//!      component `/p2p/<X>` with X != the connection's peer (DESIGN §9: relay addresses through
+//!      another peer are allowed).
+
+use futures::io::Cursor;
+use futures::{AsyncReadExt, AsyncWriteExt, FutureExt};
+use libp2p_core::transport::PortUse;
+use libp2p_core::{Endpoint, Multiaddr, PeerRecord};
+use libp2p_identify as identify;
+use libp2p_identity::{Keypair, PeerId, PublicKey};
+use libp2p_swarm::dial_opts::{DialOpts, PeerCondition};
+use libp2p_swarm::{ConnectionDenied, ConnectionId, FromSwarm, NetworkBehaviour, THandler, THandlerInEvent, THandlerOutEvent, ToSwarm};
+use multiaddr::Protocol;
+use proptest::prelude::*;
+use serde::{Deserialize, Serialize};
+use serde_json::json;
+use simswarm::net::MuxCtl;
+use simswarm::probe::cid;
+use simswarm::world::{release_phantoms, Ev, World};
+use std::collections::{BTreeSet, VecDeque};
+use std::sync::{Arc, Mutex, OnceLock};
+use std::task::{Context, Poll};
+use vcore::gen::{apply_mutations, keys, mutation, Mutation};
+use vcore::refcodec::{lp, pb_bytes, pb_parse, pb_varint, uvarint};
+use vcore::simio::Duplex;
+use vcore::{pick, Ctx, Outcome};
+
+const LEGACY_DOMAIN: &str = "libp2p-routing-state";
+const LEGACY_PTYPE: &[u8] = b"/libp2p/routing-state-record";
+const STANDARD_DOMAIN: &str = "libp2p-peer-record";
+const STANDARD_PTYPE: &[u8] = &[0x03, 0x01];
+const MAX_MSG: usize = 4096;
+
+// ---------------------------------------------------------------------------------------------
+// identities
+
+fn local_key() -> &'static Keypair {
+    &keys().ed25519[0]
+}
+
+/// Remote identities: ed25519 1..3, secp256k1 0..2, ecdsa 0..2 (9 keys, cheap to sign with).
+fn pool() -> &'static Vec<Keypair> {
+    static P: OnceLock<Vec<Keypair>> = OnceLock::new();
+    P.get_or_init(|| {
+        let k = keys();
+        k.ed25519[1..].iter().chain(&k.secp256k1).chain(&k.ecdsa).cloned().collect()
+    })
+}
+
+fn pool_peer(i: usize) -> PeerId {
+    pool()[i].public().to_peer_id()
+}
+
+#[derive(Clone, Debug, PartialEq, Eq, Serialize, Deserialize)]
+pub enum Who {
+    /// the peer of the connection the message is sent on
+    Own,
+    /// the i-th *other* identity of the pool (never the connection's peer)
+    Other(u8),
+}
+
+fn resolve(w: &Who, own: usize) -> usize {
+    let n = pool().len();
+    match w {
+        Who::Own => own,
+        Who::Other(i) => (own + 1 + (*i as usize % (n - 1))) % n,
+    }
+}
+
+// ---------------------------------------------------------------------------------------------
+// message description (the generated, serialisable value)
+
+#[derive(Clone, Debug, PartialEq, Eq, Serialize, Deserialize)]
+pub enum KeySpec {
+    Own,
+    Missing,
+    Other(u8),
+    Empty,
+    Garbage(Vec<u8>),
+    OwnMutated(Vec<Mutation>),
+}
+
+#[derive(Clone, Debug, PartialEq, Eq, Serialize, Deserialize)]
+pub enum Tail {
+    None,
+    P2p(Who),
+    /// `/p2p/<relay>/p2p-circuit[/p2p/<dst>]`
+    Circuit { relay: Who, dst: Option<Who> },
+    /// `/p2p/<who>/tcp/9`: a /p2p component that is not the last one
+    P2pMiddle(Who),
+}
+
+#[derive(Clone, Debug, PartialEq, Eq, Serialize, Deserialize)]
+pub enum Garb {
+    No,
+    /// cut n+1 bytes off the end of the valid encoding
+    Trunc(u8),
+    /// unknown protocol code followed by raw bytes
+    Raw(Vec<u8>),
+}
+
+#[derive(Clone, Debug, PartialEq, Eq, Serialize, Deserialize)]
+pub struct AddrSpec {
+    pub transport: u8,
+    pub tail: Tail,
+    pub garb: Garb,
+}
+
+#[derive(Clone, Debug, PartialEq, Eq, Serialize, Deserialize)]
+pub enum Dom {
+    Legacy,
+    Standard,
+    Empty,
+}
+
+#[derive(Clone, Debug, PartialEq, Eq, Serialize, Deserialize)]
+pub enum PType {
+    Legacy,
+    Standard,
+    Garbage,
+}
+
+#[derive(Clone, Debug, PartialEq, Eq, Serialize, Deserialize)]
+pub enum Tamper {
+    None,
+    /// XOR one payload byte after signing
+    Payload { pos: u16, x: u8 },
+    /// XOR one signature byte
+    Sig { pos: u16, x: u8 },
+    /// replace the envelope's public key after signing
+    EnvKey(Who),
+    /// empty signature
+    NoSig,
+}
+
+#[derive(Clone, Debug, PartialEq, Eq, Serialize, Deserialize)]
+pub struct SignedSpec {
+    pub signer: Who,
+    pub subject: Who,
+    pub dom: Dom,
+    pub ptype: PType,
+    pub tamper: Tamper,
+    pub addrs: Vec<AddrSpec>,
+    pub seq: u64,
+    /// build through `PeerRecord::new` instead of the hand encoder when the spec is regular
+    pub lib_built: bool,
+}
+
+#[derive(Clone, Debug, PartialEq, Eq, Serialize, Deserialize)]
+pub enum RecSpec {
+    None,
+    Signed(SignedSpec),
+    Garbage(Vec<u8>),
+    /// byte mutations of the envelope built from the spec
+    Mutated(SignedSpec, Vec<Mutation>),
+}
+
+#[derive(Clone, Debug, PartialEq, Eq, Serialize, Deserialize)]
+pub struct MsgSpec {
+    pub key: KeySpec,
+    pub rec: RecSpec,
+    pub listen: Vec<AddrSpec>,
+    pub agent: bool,
+    pub pver: bool,
+    pub protocols: u8,
+    /// 0 none, 1 valid, 2 unparsable
+    pub observed: u8,
+    pub unknown_field: bool,
+}
+
+// ---------------------------------------------------------------------------------------------
+// independent encoders
+
+/// tag = (message index, source: 0 listenAddrs / 1 record / 2 observed, index in list)
+fn addr_base(tag: (u8, u8, u8), transport: u8) -> Multiaddr {
+    let mut a = Multiaddr::empty();
+    a.push(Protocol::Ip4([10, tag.0, tag.1, tag.2].into()));
+    match transport % 5 {
+        0 => a.push(Protocol::Tcp(4001)),
+        1 => {
+            a.push(Protocol::Udp(4001));
+            a.push(Protocol::QuicV1);
+        }
+        2 => {
+            a.push(Protocol::Tcp(443));
+            a.push(Protocol::Tls);
+            a.push(Protocol::Ws("/".into()));
+        }
+        3 => {
+            a.push(Protocol::Udp(9));
+            a.push(Protocol::WebRTCDirect);
+        }
+        _ => {}
+    }
+    a
+}
+
+fn addr_bytes(s: &AddrSpec, tag: (u8, u8, u8), own: usize) -> Vec<u8> {
+    let mut a = addr_base(tag, s.transport);
+    match &s.tail {
+        Tail::None => {}
+        Tail::P2p(w) => a.push(Protocol::P2p(pool_peer(resolve(w, own)))),
+        Tail::Circuit { relay, dst } => {
+            a.push(Protocol::P2p(pool_peer(resolve(relay, own))));
+            a.push(Protocol::P2pCircuit);
+            if let Some(d) = dst {
+                a.push(Protocol::P2p(pool_peer(resolve(d, own))));
+            }
+        }
+        Tail::P2pMiddle(w) => {
+            a.push(Protocol::P2p(pool_peer(resolve(w, own))));
+            a.push(Protocol::Tcp(9));
+        }
+    }
+    let mut b = a.to_vec();
+    match &s.garb {
+        Garb::No => {}
+        Garb::Trunc(n) => {
+            let cut = (*n as usize % b.len()) + 1;
+            b.truncate(b.len() - cut);
+        }
+        Garb::Raw(r) => {
+            // 0x7f.. is not an assigned multiaddr protocol code
+            b = vec![0xff, 0xff, 0x03];
+            b.extend_from_slice(r);
+        }
+    }
+    b
+}
+
+/// Ground-truth parse used only to know what an unparsable / truncated address denotes.
+fn parse_addr(b: &[u8]) -> Option<Multiaddr> {
+    Multiaddr::try_from(b.to_vec()).ok()
+}
+
+fn names_other_peer(a: &Multiaddr, peer: &PeerId) -> bool {
+    matches!(a.iter().last(), Some(Protocol::P2p(x)) if x != *peer)
+}
+
+fn sig_buffer(domain: &[u8], ptype: &[u8], payload: &[u8]) -> Vec<u8> {
+    let mut b = uvarint(domain.len() as u64);
+    b.extend_from_slice(domain);
+    b.extend(uvarint(ptype.len() as u64));
+    b.extend_from_slice(ptype);
+    b.extend(uvarint(payload.len() as u64));
+    b.extend_from_slice(payload);
+    b
+}
+
+struct BuiltRec {
+    env: Vec<u8>,
+    /// the addresses placed in the record that denote something (parse ground truth)
+    addrs: Vec<Multiaddr>,
+    /// by construction: signer == subject == connection peer, legacy domain/type, untampered,
+    /// every address parses
+    regular_own: bool,
+}
+
+fn build_signed(s: &SignedSpec, m: u8, own: usize) -> BuiltRec {
+    let signer = &pool()[resolve(&s.signer, own)];
+    let subject = pool_peer(resolve(&s.subject, own));
+    let raw_addrs: Vec<Vec<u8>> = s.addrs.iter().enumerate().map(|(k, a)| addr_bytes(a, (m, 1, k as u8), own)).collect();
+    let parsed: Vec<Option<Multiaddr>> = raw_addrs.iter().map(|b| parse_addr(b)).collect();
+    let all_parse = parsed.iter().all(|p| p.is_some());
+    let addrs: Vec<Multiaddr> = parsed.iter().flatten().cloned().collect();
+    let regular = s.signer == s.subject && s.dom == Dom::Legacy && s.ptype == PType::Legacy && s.tamper == Tamper::None && all_parse;
+    let regular_own = regular && s.signer == Who::Own;
+    if s.lib_built && regular {
+        if let Ok(r) = PeerRecord::new(signer, addrs.clone()) {
+            return BuiltRec { env: r.into_signed_envelope().into_protobuf_encoding(), addrs, regular_own };
+        }
+    }
+    let mut payload = pb_bytes(1, &subject.to_bytes());
+    payload.extend(pb_varint(2, s.seq));
+    for a in &raw_addrs {
+        payload.extend(pb_bytes(3, &pb_bytes(1, a)));
+    }
+    let domain: &[u8] = match s.dom {
+        Dom::Legacy => LEGACY_DOMAIN.as_bytes(),
+        Dom::Standard => STANDARD_DOMAIN.as_bytes(),
+        Dom::Empty => b"",
+    };
+    let ptype: &[u8] = match s.ptype {
+        PType::Legacy => LEGACY_PTYPE,
+        PType::Standard => STANDARD_PTYPE,
+        PType::Garbage => b"/libp2p/routing-state-recorD",
+    };
+    let mut sig = signer.sign(&sig_buffer(domain, ptype, &payload)).unwrap_or_default();
+    let mut env_key = signer.public();
+    match &s.tamper {
+        Tamper::None => {}
+        Tamper::Payload { pos, x } => {
+            let i = pick(*pos, payload.len());
+            payload[i] ^= (*x).max(1);
+        }
+        Tamper::Sig { pos, x } => {
+            if !sig.is_empty() {
+                let i = pick(*pos, sig.len());
+                sig[i] ^= (*x).max(1);
+            }
+        }
+        Tamper::EnvKey(w) => env_key = pool()[resolve(w, own)].public(),
+        Tamper::NoSig => sig.clear(),
+    }
+    let mut env = pb_bytes(1, &env_key.encode_protobuf());
+    env.extend(pb_bytes(2, ptype));
+    env.extend(pb_bytes(3, &payload));
+    env.extend(pb_bytes(5, &sig));
+    BuiltRec { env, addrs, regular_own }
+}
+
+/// Three-valued independent verification of an envelope as a peer record (legacy format).
+#[derive(Clone, Debug, PartialEq, Eq)]
+enum RecTruth {
+    Valid { peer: PeerId, addrs: Vec<Multiaddr> },
+    Invalid,
+    /// non-canonical wire structure: the reference does not decide
+    Unknown,
+}
+
+fn single(fields: &[(u32, u8, Vec<u8>)], n: u32) -> Result<Vec<u8>, ()> {
+    let mut it = fields.iter().filter(|f| f.0 == n);
+    match (it.next(), it.next()) {
+        (None, _) => Ok(vec![]),
+        (Some(f), None) if f.1 == 2 => Ok(f.2.clone()),
+        _ => Err(()),
+    }
+}
+
+fn indep_verify(env: &[u8]) -> RecTruth {
+    let Some(f) = pb_parse(env) else { return RecTruth::Unknown };
+    if f.iter().any(|x| ![1, 2, 3, 5].contains(&x.0)) {
+        return RecTruth::Unknown;
+    }
+    let (Ok(pk), Ok(ptype), Ok(payload), Ok(sig)) = (single(&f, 1), single(&f, 2), single(&f, 3), single(&f, 5)) else { return RecTruth::Unknown };
+    let Ok(key) = PublicKey::try_decode_protobuf(&pk) else { return RecTruth::Invalid };
+    if ptype != LEGACY_PTYPE {
+        return RecTruth::Invalid;
+    }
+    if !key.verify(&sig_buffer(LEGACY_DOMAIN.as_bytes(), &ptype, &payload), &sig) {
+        return RecTruth::Invalid;
+    }
+    let Some(pf) = pb_parse(&payload) else { return RecTruth::Unknown };
+    if pf.iter().any(|x| ![1, 2, 3].contains(&x.0)) || pf.iter().any(|x| (x.0 == 2 && x.1 != 0) || (x.0 == 3 && x.1 != 2)) || pf.iter().filter(|x| x.0 == 2).count() > 1 {
+        return RecTruth::Unknown;
+    }
+    let Ok(pid) = single(&pf, 1) else { return RecTruth::Unknown };
+    let Ok(peer) = PeerId::from_bytes(&pid) else { return RecTruth::Invalid };
+    if peer != key.to_peer_id() {
+        return RecTruth::Invalid;
+    }
+    let mut addrs = vec![];
+    for a in pf.iter().filter(|x| x.0 == 3) {
+        let Some(af) = pb_parse(&a.2) else { return RecTruth::Unknown };
+        if af.iter().any(|x| x.0 != 1) {
+            return RecTruth::Unknown;
+        }
+        let Ok(b) = single(&af, 1) else { return RecTruth::Unknown };
+        match Multiaddr::try_from(b) {
+            Ok(m) => addrs.push(m),
+            Err(_) => return RecTruth::Invalid,
+        }
+    }
+    RecTruth::Valid { peer, addrs }
+}
+
+#[derive(Clone, Debug, PartialEq, Eq)]
+enum KeyClass {
+    Own,
+    Foreign,
+    Absent,
+    Undecodable,
+}
+
+/// Everything the harness knows about a message it built.
+struct Built {
+    bytes: Vec<u8>,
+    key_class: KeyClass,
+    listen_parsed: Vec<Multiaddr>,
+    listen_all_parse: bool,
+    has_rec: bool,
+    rec_addrs: Vec<Multiaddr>,
+    /// independent verdict on the record bytes, relative to the connection's peer
+    rec_valid_own: Option<bool>,
+    rec_regular_own: bool,
+    rec_env: Vec<u8>,
+    agent: Option<String>,
+    pver: Option<String>,
+    protocols: Vec<String>,
+    labels: Vec<&'static str>,
+}
+
+fn build_msg(spec: &MsgSpec, m: u8, own: usize) -> Built {
+    let own_peer = pool_peer(own);
+    let own_key = pool()[own].public().encode_protobuf();
+    let mut labels = vec![];
+    let key: Option<Vec<u8>> = match &spec.key {
+        KeySpec::Own => Some(own_key.clone()),
+        KeySpec::Missing => None,
+        KeySpec::Other(i) => Some(pool()[resolve(&Who::Other(*i), own)].public().encode_protobuf()),
+        KeySpec::Empty => Some(vec![]),
+        KeySpec::Garbage(g) => Some(g.clone()),
+        KeySpec::OwnMutated(ms) => Some(apply_mutations(&own_key, ms)),
+    };
+    let key_class = match &key {
+        None => KeyClass::Absent,
+        Some(k) if *k == own_key => KeyClass::Own,
+        Some(k) => match PublicKey::try_decode_protobuf(k) {
+            Ok(pk) if pk.to_peer_id() == own_peer => KeyClass::Own,
+            Ok(_) => KeyClass::Foreign,
+            Err(_) => KeyClass::Undecodable,
+        },
+    };
+    let listen_raw: Vec<Vec<u8>> = spec.listen.iter().enumerate().map(|(k, a)| addr_bytes(a, (m, 0, k as u8), own)).collect();
+    let listen_opt: Vec<Option<Multiaddr>> = listen_raw.iter().map(|b| parse_addr(b)).collect();
+    let listen_all_parse = listen_opt.iter().all(|x| x.is_some());
+    let listen_parsed: Vec<Multiaddr> = listen_opt.into_iter().flatten().collect();
+    let (has_rec, rec_env, rec_addrs, rec_regular_own) = match &spec.rec {
+        RecSpec::None => (false, vec![], vec![], false),
+        RecSpec::Signed(s) => {
+            let b = build_signed(s, m, own);
+            (true, b.env, b.addrs, b.regular_own)
+        }
+        RecSpec::Garbage(g) => (true, g.clone(), vec![], false),
+        RecSpec::Mutated(s, ms) => {
+            let b = build_signed(s, m, own);
+            let e = apply_mutations(&b.env, ms);
+            let same = e == b.env;
+            (true, e, b.addrs, same && b.regular_own)
+        }
+    };
+    let rec_valid_own = if has_rec {
+        match indep_verify(&rec_env) {
+            RecTruth::Valid { peer, .. } => Some(peer == own_peer),
+            RecTruth::Invalid => Some(false),
+            RecTruth::Unknown => None,
+        }
+    } else {
+        Some(false)
+    };
+    let agent = spec.agent.then(|| format!("agent-{m}"));
+    let pver = spec.pver.then(|| format!("pver-{m}"));
+    let protocols: Vec<String> = (0..spec.protocols % 4).map(|j| format!("/c46/{m}/{j}")).collect();
+    let mut v = vec![];
+    if let Some(k) = &key {
+        v.extend(pb_bytes(1, k));
+    }
+    for a in &listen_raw {
+        v.extend(pb_bytes(2, a));
+    }
+    for p in &protocols {
+        v.extend(pb_bytes(3, p.as_bytes()));
+    }
+    match spec.observed % 3 {
+        1 => v.extend(pb_bytes(4, &addr_base((m, 2, 0), 0).to_vec())),
+        2 => v.extend(pb_bytes(4, &[0xff, 0xff, 0x03, 1])),
+        _ => {}
+    }
+    if let Some(s) = &pver {
+        v.extend(pb_bytes(5, s.as_bytes()));
+    }
+    if let Some(s) = &agent {
+        v.extend(pb_bytes(6, s.as_bytes()));
+    }
+    if spec.unknown_field {
+        v.extend(pb_varint(15, 7));
+    }
+    if has_rec {
+        v.extend(pb_bytes(8, &rec_env));
+    }
+    // lie labels
+    match key_class {
+        KeyClass::Foreign => labels.push("lie:key-foreign"),
+        KeyClass::Absent => labels.push("key:absent"),
+        KeyClass::Undecodable => labels.push("key:undecodable"),
+        KeyClass::Own => {}
+    }
+    if let RecSpec::Signed(s) | RecSpec::Mutated(s, _) = &spec.rec {
+        if rec_valid_own != Some(true) {
+            if s.signer != Who::Own && s.subject == s.signer {
+                labels.push("lie:rec-foreign-signer-and-subject");
+            } else if s.signer != s.subject {
+                labels.push("lie:rec-subject-differs-from-signer");
+            }
+            match s.tamper {
+                Tamper::Payload { .. } => labels.push("lie:rec-tampered-payload"),
+                Tamper::Sig { .. } | Tamper::NoSig => labels.push("lie:rec-tampered-signature"),
+                Tamper::EnvKey(_) => labels.push("lie:rec-envelope-key-swapped"),
+                Tamper::None => {}
+            }
+            if s.dom != Dom::Legacy {
+                labels.push("lie:rec-wrong-domain");
+            }
+            if s.ptype != PType::Legacy {
+                labels.push("lie:rec-wrong-payload-type");
+            }
+        }
+        if matches!(spec.rec, RecSpec::Mutated(..)) {
+            labels.push("rec:byte-mutated-envelope");
+        }
+    }
+    if matches!(spec.rec, RecSpec::Garbage(_)) {
+        labels.push("lie:rec-garbage-bytes");
+    }
+    if rec_valid_own == Some(true) {
+        labels.push("rec:valid-own");
+    }
+    if listen_parsed.iter().any(|a| names_other_peer(a, &own_peer)) {
+        labels.push("lie:listen-addr-names-other-peer");
+    }
+    if rec_addrs.iter().any(|a| names_other_peer(a, &own_peer)) {
+        labels.push("lie:record-addr-names-other-peer");
+    }
+    if !listen_all_parse {
+        labels.push("listen:unparsable-address");
+    }
+    Built { bytes: v, key_class, listen_parsed, listen_all_parse, has_rec, rec_addrs, rec_valid_own, rec_regular_own, rec_env, agent, pver, protocols, labels }
+}
+
+impl Built {
+    /// number of lies relative to the connection's peer (as identify reply / as push)
+    fn lies(&self, push: bool, own_peer: &PeerId) -> u32 {
+        let key_lie = match self.key_class {
+            KeyClass::Own => false,
+            KeyClass::Foreign => true,
+            // a push may omit the key; an identify reply may not
+            KeyClass::Absent | KeyClass::Undecodable => !push,
+        };
+        // pushes do not carry a record as far as the receiver is concerned, but a bad one is still a lie
+        let rec_lie = self.has_rec && self.rec_valid_own != Some(true);
+        let addr_lie = self.listen_parsed.iter().chain(&self.rec_addrs).any(|a| names_other_peer(a, own_peer));
+        key_lie as u32 + rec_lie as u32 + addr_lie as u32
+    }
+}
+
+// ---------------------------------------------------------------------------------------------
+// generators
+
+fn who_other_heavy() -> impl Strategy<Value = Who> {
+    prop_oneof![1 => Just(Who::Own), 2 => (0u8..8).prop_map(Who::Other)]
+}
+
+fn who_any() -> impl Strategy<Value = Who> {
+    prop_oneof![1 => Just(Who::Own), 1 => (0u8..8).prop_map(Who::Other)]
+}
+
+fn tail(honest: bool) -> BoxedStrategy<Tail> {
+    if honest {
+        prop_oneof![
+            4 => Just(Tail::None),
+            2 => Just(Tail::P2p(Who::Own)),
+            1 => (0u8..8).prop_map(|r| Tail::Circuit { relay: Who::Other(r), dst: Some(Who::Own) }),
+            1 => (0u8..8).prop_map(|r| Tail::Circuit { relay: Who::Other(r), dst: None }),
+            1 => (0u8..8).prop_map(|r| Tail::P2pMiddle(Who::Other(r))),
+        ]
+        .boxed()
+    } else {
+        prop_oneof![
+            4 => Just(Tail::None),
+            2 => Just(Tail::P2p(Who::Own)),
+            4 => (0u8..8).prop_map(|r| Tail::P2p(Who::Other(r))),
+            2 => (who_any(), proptest::option::of(who_any())).prop_map(|(relay, dst)| Tail::Circuit { relay, dst }),
+            1 => who_any().prop_map(Tail::P2pMiddle),
+        ]
+        .boxed()
+    }
+}
+
+fn addr_spec(honest: bool) -> BoxedStrategy<AddrSpec> {
+    let garb = if honest {
+        Just(Garb::No).boxed()
+    } else {
+        prop_oneof![10 => Just(Garb::No), 1 => (0u8..40).prop_map(Garb::Trunc), 1 => proptest::collection::vec(any::<u8>(), 0..6).prop_map(Garb::Raw)].boxed()
+    };
+    (0u8..5, tail(honest), garb).prop_map(|(transport, tail, garb)| AddrSpec { transport, tail, garb }).boxed()
+}
+
+fn signed_spec(honest: bool) -> BoxedStrategy<SignedSpec> {
+    if honest {
+        (proptest::collection::vec(addr_spec(true), 0..4), 0u64..1000, any::<bool>())
+            .prop_map(|(addrs, seq, lib_built)| SignedSpec { signer: Who::Own, subject: Who::Own, dom: Dom::Legacy, ptype: PType::Legacy, tamper: Tamper::None, addrs, seq, lib_built })
+            .boxed()
+    } else {
+        // start from a valid own record and break (mostly) one thing
+        let lie = prop_oneof![
+            3 => (0u8..8).prop_map(|i| (Who::Other(i), Who::Other(i), Dom::Legacy, PType::Legacy, Tamper::None)),
+            2 => (0u8..8).prop_map(|i| (Who::Other(i), Who::Own, Dom::Legacy, PType::Legacy, Tamper::None)),
+            2 => (0u8..8).prop_map(|i| (Who::Own, Who::Other(i), Dom::Legacy, PType::Legacy, Tamper::None)),
+            2 => (any::<u16>(), 1u8..=255).prop_map(|(pos, x)| (Who::Own, Who::Own, Dom::Legacy, PType::Legacy, Tamper::Payload { pos, x })),
+            2 => (any::<u16>(), 1u8..=255).prop_map(|(pos, x)| (Who::Own, Who::Own, Dom::Legacy, PType::Legacy, Tamper::Sig { pos, x })),
+            1 => Just((Who::Own, Who::Own, Dom::Legacy, PType::Legacy, Tamper::NoSig)),
+            2 => who_other_heavy().prop_map(|w| (Who::Own, Who::Own, Dom::Legacy, PType::Legacy, Tamper::EnvKey(w))),
+            1 => (0u8..8).prop_map(|i| (Who::Other(i), Who::Own, Dom::Legacy, PType::Legacy, Tamper::EnvKey(Who::Own))),
+            2 => Just((Who::Own, Who::Own, Dom::Standard, PType::Standard, Tamper::None)),
+            1 => Just((Who::Own, Who::Own, Dom::Standard, PType::Legacy, Tamper::None)),
+            1 => Just((Who::Own, Who::Own, Dom::Empty, PType::Legacy, Tamper::None)),
+            1 => Just((Who::Own, Who::Own, Dom::Legacy, PType::Standard, Tamper::None)),
+            1 => Just((Who::Own, Who::Own, Dom::Legacy, PType::Garbage, Tamper::None)),
+            2 => Just((Who::Own, Who::Own, Dom::Legacy, PType::Legacy, Tamper::None)),
+        ];
+        (lie, proptest::collection::vec(addr_spec(false), 0..4), 0u64..1000, any::<bool>())
+            .prop_map(|((signer, subject, dom, ptype, tamper), addrs, seq, lib_built)| SignedSpec { signer, subject, dom, ptype, tamper, addrs, seq, lib_built })
+            .boxed()
+    }
+}
+
+fn rec_spec(honest: bool) -> BoxedStrategy<RecSpec> {
+    if honest {
+        prop_oneof![1 => Just(RecSpec::None), 2 => signed_spec(true).prop_map(RecSpec::Signed)].boxed()
+    } else {
+        prop_oneof![
+            3 => Just(RecSpec::None),
+            2 => signed_spec(true).prop_map(RecSpec::Signed),
+            8 => signed_spec(false).prop_map(RecSpec::Signed),
+            1 => proptest::collection::vec(any::<u8>(), 0..24).prop_map(RecSpec::Garbage),
+            1 => (signed_spec(true), proptest::collection::vec(mutation(), 1..3)).prop_map(|(s, m)| RecSpec::Mutated(s, m)),
+        ]
+        .boxed()
+    }
+}
+
+fn key_spec(honest: bool, push: bool) -> BoxedStrategy<KeySpec> {
+    if honest {
+        if push {
+            prop_oneof![2 => Just(KeySpec::Own), 1 => Just(KeySpec::Missing)].boxed()
+        } else {
+            Just(KeySpec::Own).boxed()
+        }
+    } else {
+        prop_oneof![
+            12 => Just(KeySpec::Own),
+            2 => Just(KeySpec::Missing),
+            5 => (0u8..8).prop_map(KeySpec::Other),
+            1 => Just(KeySpec::Empty),
+            1 => proptest::collection::vec(any::<u8>(), 1..40).prop_map(KeySpec::Garbage),
+            2 => proptest::collection::vec(mutation(), 1..3).prop_map(KeySpec::OwnMutated),
+        ]
+        .boxed()
+    }
+}
+
+/// `honest` = every dimension honest; otherwise each dimension is drawn from its lying mix
+/// independently with the given probability, so that single-lie messages are frequent.
+fn msg_spec(push: bool) -> BoxedStrategy<MsgSpec> {
+    let dims = (proptest::bool::weighted(0.3), proptest::bool::weighted(0.35), proptest::bool::weighted(0.3), proptest::bool::weighted(0.45));
+    dims.prop_flat_map(move |(lie_key, lie_rec, lie_addr, all_honest)| {
+        let (lk, lr, la) = if all_honest { (false, false, false) } else { (lie_key, lie_rec, lie_addr) };
+        (
+            key_spec(!lk, push),
+            rec_spec(!lr),
+            proptest::collection::vec(addr_spec(!la), 0..4),
+            proptest::bool::weighted(0.8),
+            any::<bool>(),
+            0u8..4,
+            prop_oneof![2 => Just(0u8), 3 => Just(1u8), 1 => Just(2u8)],
+            proptest::bool::weighted(0.1),
+        )
+            .prop_map(|(key, rec, listen, agent, pver, protocols, observed, unknown_field)| MsgSpec { key, rec, listen, agent, pver, protocols, observed, unknown_field })
+    })
+    .boxed()
+}
+
+// ---------------------------------------------------------------------------------------------
+// world sub-check
+
+#[derive(Clone, Debug, Serialize, Deserialize)]
+pub enum Op {
+    /// new connection to pool peer `peer`
+    Connect { peer: u8, inbound: bool },
+    /// send a message on connection `conn`: as the identify reply if the request is unanswered
+    /// and `as_push` is false, otherwise as a push
+    Msg { conn: u16, as_push: bool, msg: MsgSpec, settle: bool },
+    /// the remote closes connection `conn`
+    Close { conn: u16 },
+}
+
+#[derive(Clone, Debug, Serialize, Deserialize)]
+pub struct Case {
+    /// 0 = peer cache disabled
+    pub cache: u8,
+    pub signed_local: bool,
+    pub ops: Vec<Op>,
+}
+
+fn op() -> BoxedStrategy<Op> {
+    prop_oneof![
+        3 => (0u8..4, proptest::bool::weighted(0.3)).prop_map(|(peer, inbound)| Op::Connect { peer, inbound }),
+        6 => (any::<u16>(), msg_spec(false), proptest::bool::weighted(0.85)).prop_map(|(conn, msg, settle)| Op::Msg { conn, as_push: false, msg, settle }),
+        5 => (any::<u16>(), msg_spec(true), proptest::bool::weighted(0.85)).prop_map(|(conn, msg, settle)| Op::Msg { conn, as_push: true, msg, settle }),
+        1 => any::<u16>().prop_map(|conn| Op::Close { conn }),
+    ]
+    .boxed()
+}
+
+fn case_strategy() -> BoxedStrategy<Case> {
+    (prop_oneof![4 => Just(100u8), 1 => Just(0u8), 1 => Just(1u8)], any::<bool>(), (0u8..4, proptest::bool::weighted(0.3)), proptest::collection::vec(op(), 2..12))
+        .prop_map(|(cache, signed_local, (peer, inbound), mut ops)| {
+            ops.insert(0, Op::Connect { peer, inbound });
+            Case { cache, signed_local, ops }
+        })
+        .boxed()
+}
+
+#[derive(Debug)]
+enum Obs {
+    Received { conn: ConnectionId, peer: PeerId, info: identify::Info },
+    PeerAddr { peer: PeerId, addr: Multiaddr },
+}
+
+/// Transparent wrapper: delegates everything to the real behaviour and copies what it emits.
+struct Spy {
+    inner: identify::Behaviour,
+    log: Arc<Mutex<Vec<Obs>>>,
+}
+
+impl NetworkBehaviour for Spy {
+    type ConnectionHandler = <identify::Behaviour as NetworkBehaviour>::ConnectionHandler;
+    type ToSwarm = identify::Event;
+
+    fn handle_pending_inbound_connection(&mut self, c: ConnectionId, l: &Multiaddr, r: &Multiaddr) -> Result<(), ConnectionDenied> {
+        self.inner.handle_pending_inbound_connection(c, l, r)
+    }
+    fn handle_established_inbound_connection(&mut self, c: ConnectionId, p: PeerId, l: &Multiaddr, r: &Multiaddr) -> Result<THandler<Self>, ConnectionDenied> {
+        self.inner.handle_established_inbound_connection(c, p, l, r)
+    }
+    fn handle_pending_outbound_connection(&mut self, c: ConnectionId, p: Option<PeerId>, a: &[Multiaddr], e: Endpoint) -> Result<Vec<Multiaddr>, ConnectionDenied> {
+        self.inner.handle_pending_outbound_connection(c, p, a, e)
+    }
+    fn handle_established_outbound_connection(&mut self, c: ConnectionId, p: PeerId, a: &Multiaddr, e: Endpoint, u: PortUse) -> Result<THandler<Self>, ConnectionDenied> {
+        self.inner.handle_established_outbound_connection(c, p, a, e, u)
+    }
+    fn on_swarm_event(&mut self, event: FromSwarm) {
+        self.inner.on_swarm_event(event)
+    }
+    fn on_connection_handler_event(&mut self, p: PeerId, c: ConnectionId, e: THandlerOutEvent<Self>) {
+        self.inner.on_connection_handler_event(p, c, e)
+    }
+    fn poll(&mut self, cx: &mut Context<'_>) -> Poll<ToSwarm<Self::ToSwarm, THandlerInEvent<Self>>> {
+        let r = self.inner.poll(cx);
+        if let Poll::Ready(ev) = &r {
+            match ev {
+                ToSwarm::GenerateEvent(identify::Event::Received { connection_id, peer_id, info }) => {
+                    self.log.lock().unwrap().push(Obs::Received { conn: *connection_id, peer: *peer_id, info: info.clone() });
+                }
+                ToSwarm::NewExternalAddrOfPeer { peer_id, address } => {
+                    self.log.lock().unwrap().push(Obs::PeerAddr { peer: *peer_id, addr: address.clone() });
+                }
+                _ => {}
+            }
+        }
+        r
+    }
+}
+
+struct Conn {
+    peer_idx: usize,
+    peer: PeerId,
+    ctl: MuxCtl,
+    id: u64,
+    requests: VecDeque<Duplex>,
+    replied: bool,
+    closed: bool,
+    /// a `Received` was seen for this connection (the handler holds a remote info)
+    accepted_any: bool,
+    held: Vec<Duplex>,
+}
+
+struct Sent {
+    conn: usize,
+    push: bool,
+    b: Built,
+}
+
+type Fail = (String, serde_json::Value);
+
+struct Run {
+    w: World<Spy>,
+    log: Arc<Mutex<Vec<Obs>>>,
+    conns: Vec<Conn>,
+    sent: Vec<Sent>,
+    /// per pool peer: addresses (normalised with /p2p/<peer>) that were reported in a validated `Received`
+    validated: Vec<BTreeSet<Vec<u8>>>,
+    labels: BTreeSet<&'static str>,
+    received_total: u32,
+    one_lie_msgs: u32,
+    honest_accepted: u32,
+    listening: bool,
+    cache_enabled: bool,
+}
+
+fn hs(proto: &str) -> Vec<u8> {
+    let mut v = lp(b"/multistream/1.0.0\n");
+    v.extend(lp(format!("{proto}\n").as_bytes()));
+    v
+}
+
+fn write_now(s: &mut Duplex, bytes: &[u8]) -> bool {
+    matches!(s.write_all(bytes).now_or_never(), Some(Ok(())))
+}
+
+fn read_now(s: &mut Duplex) -> Vec<u8> {
+    let mut out = vec![];
+    let mut buf = [0u8; 256];
+    while let Some(Ok(n)) = s.read(&mut buf).now_or_never() {
+        if n == 0 {
+            break;
+        }
+        out.extend_from_slice(&buf[..n]);
+    }
+    out
+}
+
+impl Run {
+    fn settle(&mut self) -> bool {
+        self.w.settle(400, &mut |_, _, _| {})
+    }
+
+    fn norm(addr: &Multiaddr, peer: &PeerId) -> Option<Vec<u8>> {
+        addr.clone().with_p2p(*peer).ok().map(|a| a.to_vec())
+    }
+
+    fn collect_requests(&mut self) {
+        for c in self.conns.iter_mut() {
+            for s in c.ctl.take_peer_inbound() {
+                c.requests.push_back(s);
+            }
+        }
+    }
+
+    fn connect(&mut self, peer_idx: usize, inbound: bool) -> Result<(), Fail> {
+        let peer = pool_peer(peer_idx);
+        let k = self.conns.len() as u8;
+        let before = self.w.nodes[0].events.len();
+        let ctl = if inbound {
+            if !self.listening {
+                self.w.listen(0, "/ip4/192.0.2.250/tcp/7".parse().unwrap());
+                self.listening = true;
+                self.settle();
+            }
+            let sb: Multiaddr = format!("/ip4/192.0.2.{}/tcp/{}", k + 1, 2000 + k as u16).parse().unwrap();
+            let Some(i) = self.w.incoming_phantom(0, 0, sb) else { return Err(("harness:incoming-failed".into(), json!(null))) };
+            self.settle();
+            self.w.resolve_incoming(i, Some(peer));
+            self.w.incoming[i].ctl.clone()
+        } else {
+            let addr: Multiaddr = format!("/ip4/192.0.2.{}/tcp/{}", k + 1, 1000 + k as u16).parse().unwrap();
+            let d = self.w.n_dials(0);
+            let opts = DialOpts::peer_id(peer).addresses(vec![addr]).condition(PeerCondition::Always).build();
+            if let Err(e) = self.w.dial(0, opts) {
+                return Err(("harness:dial-failed".into(), json!(format!("{e:?}"))));
+            }
+            let Some(l) = self.w.resolve_ok(0, d, peer, None) else { return Err(("harness:resolve-failed".into(), json!(null))) };
+            self.w.links[l].a.clone()
+        };
+        self.settle();
+        let id = self.w.nodes[0].events[before..].iter().rev().find_map(|e| match e {
+            Ev::Established { conn, peer: p, .. } if *p == peer => Some(*conn),
+            _ => None,
+        });
+        let Some(id) = id else { return Err(("harness:not-established".into(), json!(format!("{:?}", &self.w.nodes[0].events[before..])))) };
+        self.conns.push(Conn { peer_idx, peer, ctl, id, requests: VecDeque::new(), replied: false, closed: false, accepted_any: false, held: vec![] });
+        Ok(())
+    }
+
+    /// wait (real time: the handler's first identify is triggered by a zero-length real timer)
+    /// until the identify request stream of connection `c` shows up
+    fn wait_request(&mut self, c: usize) -> bool {
+        let start = std::time::Instant::now();
+        loop {
+            self.settle();
+            self.collect_requests();
+            if !self.conns[c].requests.is_empty() {
+                return true;
+            }
+            if start.elapsed() > std::time::Duration::from_secs(10) {
+                return false;
+            }
+            std::thread::sleep(std::time::Duration::from_micros(200));
+        }
+    }
+
+    /// Evaluate everything the behaviour emitted since the last call.
+    /// Returns the `Received` infos per connection index.
+    fn drain_obs(&mut self) -> Result<Vec<(usize, identify::Info)>, Fail> {
+        let obs: Vec<Obs> = std::mem::take(&mut *self.log.lock().unwrap());
+        let mut got = vec![];
+        for o in obs {
+            match o {
+                Obs::Received { conn, peer, info } => {
+                    self.received_total += 1;
+                    let Some(c) = self.conns.iter().position(|x| x.id == cid(conn)) else {
+                        return Err(("C46:received-for-unknown-connection".into(), json!({"conn": cid(conn)})));
+                    };
+                    let cpeer = self.conns[c].peer;
+                    let dbg = |this: &Self| json!({"conn": c, "conn_peer": cpeer.to_string(), "event_peer": peer.to_string(), "info": format!("{info:?}"), "sent_on_conn": this.sent.iter().enumerate().filter(|(_, s)| s.conn == c).map(|(i, _)| i).collect::<Vec<_>>()});
+                    if peer != cpeer {
+                        return Err(("C46:received-attributed-to-wrong-peer".into(), dbg(self)));
+                    }
+                    // (1)
+                    if info.public_key.to_peer_id() != cpeer {
+                        return Err(("C46:reported-key-does-not-derive-connection-peer".into(), dbg(self)));
+                    }
+                    // provenance of the tagged strings
+                    let mut tagged: Vec<usize> = vec![];
+                    if let Some(m) = info.agent_version.strip_prefix("agent-").and_then(|x| x.parse::<usize>().ok()) {
+                        tagged.push(m);
+                    }
+                    if let Some(m) = info.protocol_version.strip_prefix("pver-").and_then(|x| x.parse::<usize>().ok()) {
+                        tagged.push(m);
+                    }
+                    for p in &info.protocols {
+                        if let Some(m) = p.as_ref().strip_prefix("/c46/").and_then(|x| x.split('/').next()).and_then(|x| x.parse::<usize>().ok()) {
+                            tagged.push(m);
+                        }
+                    }
+                    for m in tagged {
+                        let Some(s) = self.sent.get(m) else { return Err(("C46:reported-string-never-sent".into(), dbg(self))) };
+                        if s.conn != c {
+                            return Err(("C46:info-from-another-connection-reported".into(), dbg(self)));
+                        }
+                        if s.b.key_class == KeyClass::Foreign {
+                            return Err(("C46:content-of-foreign-key-message-reported".into(), dbg(self)));
+                        }
+                    }
+                    // (2) + (3) per address
+                    for a in &info.listen_addrs {
+                        if names_other_peer(a, &cpeer) {
+                            return Err(("C46:reported-listen-addr-names-other-peer".into(), dbg(self)));
+                        }
+                        let mut legit = false;
+                        let mut why: Option<&'static str> = None;
+                        for s in &self.sent {
+                            let in_listen = s.b.listen_parsed.contains(a);
+                            let in_rec = s.b.rec_addrs.contains(a);
+                            if !in_listen && !in_rec {
+                                continue;
+                            }
+                            if s.conn != c {
+                                why.get_or_insert("C46:info-from-another-connection-reported");
+                                continue;
+                            }
+                            if s.b.key_class == KeyClass::Foreign {
+                                why = Some("C46:content-of-foreign-key-message-reported");
+                                continue;
+                            }
+                            if in_listen || s.b.rec_valid_own != Some(false) {
+                                legit = true;
+                            } else {
+                                why = Some("C46:addresses-of-unverified-record-reported");
+                            }
+                        }
+                        if !legit {
+                            return Err((why.unwrap_or("C46:untraceable-listen-addr-reported").into(), dbg(self)));
+                        }
+                    }
+                    if let Some(env) = &info.signed_peer_record {
+                        match indep_verify(&env.clone().into_protobuf_encoding()) {
+                            RecTruth::Valid { peer: rp, .. } if rp == cpeer => {}
+                            RecTruth::Unknown => {}
+                            _ => return Err(("C46:reported-signed-record-not-valid-for-peer".into(), dbg(self))),
+                        }
+                    }
+                    for a in &info.listen_addrs {
+                        if let Some(n) = Self::norm(a, &cpeer) {
+                            self.validated[self.conns[c].peer_idx].insert(n);
+                        }
+                    }
+                    self.conns[c].accepted_any = true;
+                    got.push((c, info));
+                }
+                Obs::PeerAddr { peer, addr } => {
+                    let Some(pi) = (0..pool().len()).find(|i| pool_peer(*i) == peer) else {
+                        return Err(("C46:peer-address-for-unknown-peer".into(), json!({"peer": peer.to_string(), "addr": addr.to_string()})));
+                    };
+                    if names_other_peer(&addr, &peer) {
+                        return Err(("C46:peer-address-names-other-peer".into(), json!({"peer": peer.to_string(), "addr": addr.to_string()})));
+                    }
+                    let ok = Self::norm(&addr, &peer).map(|n| self.validated[pi].contains(&n)).unwrap_or(false);
+                    if !ok {
+                        return Err(("C46:peer-address-not-from-authenticated-info".into(), json!({"peer": peer.to_string(), "addr": addr.to_string()})));
+                    }
+                    self.labels.insert("peer-address-emitted");
+                }
+            }
+        }
+        Ok(got)
+    }
+
+    /// The address book that feeds later dials.
+    fn check_cache(&mut self) -> Result<(), Fail> {
+        for pi in 0..pool().len() {
+            let peer = pool_peer(pi);
+            let addrs = self.w.nodes[0]
+                .swarm
+                .behaviour_mut()
+                .inner
+                .handle_pending_outbound_connection(ConnectionId::new_unchecked(usize::MAX - 46), Some(peer), &[], Endpoint::Dialer)
+                .unwrap_or_default();
+            if !addrs.is_empty() {
+                self.labels.insert("dial-cache-nonempty");
+                if !self.cache_enabled {
+                    self.labels.insert("cache-disabled-but-nonempty");
+                }
+            }
+            for a in addrs {
+                if names_other_peer(&a, &peer) {
+                    return Err(("C46:cached-addr-names-other-peer".into(), json!({"peer": peer.to_string(), "addr": a.to_string()})));
+                }
+                let ok = Self::norm(&a, &peer).map(|n| self.validated[pi].contains(&n)).unwrap_or(false);
+                if !ok {
+                    return Err(("C46:cached-addr-not-from-authenticated-info".into(), json!({"peer": peer.to_string(), "addr": a.to_string()})));
+                }
+            }
+        }
+        Ok(())
+    }
+
+    fn send(&mut self, c: usize, as_push: bool, spec: &MsgSpec, settle: bool) -> Result<Option<String>, Fail> {
+        let m = self.sent.len();
+        if m >= 250 {
+            return Ok(None);
+        }
+        let push = as_push || self.conns[c].replied;
+        let own = self.conns[c].peer_idx;
+        let own_peer = self.conns[c].peer;
+        let b = build_msg(spec, m as u8, own);
+        // harness self-check: a record that is regular by construction must verify independently
+        if b.rec_regular_own && b.rec_valid_own != Some(true) {
+            return Err(("harness:regular-record-does-not-verify".into(), json!(format!("{spec:?}"))));
+        }
+        for l in &b.labels {
+            self.labels.insert(l);
+        }
+        let lies = b.lies(push, &own_peer);
+        let wire = lp(&b.bytes);
+        let oversize = b.bytes.len() > MAX_MSG;
+        // drain what happened before, so that the events after this message can be attributed
+        if settle {
+            self.settle();
+            self.drain_obs()?;
+        }
+        let had_info = self.conns[c].accepted_any;
+        let mut stream;
+        if push {
+            stream = self.conns[c].ctl.remote_open();
+            let mut bytes = hs("/ipfs/id/push/1.0.0");
+            bytes.extend(&wire);
+            write_now(&mut stream, &bytes);
+            self.labels.insert(if had_info { "push-after-identify" } else { "push-before-identify" });
+        } else {
+            if self.conns[c].requests.is_empty() && !self.wait_request(c) {
+                return Ok(Some("identify request stream did not appear within 10 s".into()));
+            }
+            stream = self.conns[c].requests.pop_front().unwrap();
+            self.settle();
+            let proposal = read_now(&mut stream);
+            if proposal != hs("/ipfs/id/1.0.0") {
+                return Err(("harness:unexpected-outbound-proposal".into(), json!(String::from_utf8_lossy(&proposal))));
+            }
+            let mut bytes = hs("/ipfs/id/1.0.0");
+            bytes.extend(&wire);
+            write_now(&mut stream, &bytes);
+            self.conns[c].replied = true;
+            self.labels.insert("identify-reply");
+        }
+        let _ = stream.close().now_or_never();
+        self.conns[c].held.push(stream);
+        let honest = lies == 0
+            && !oversize
+            && b.listen_all_parse
+            && (!b.has_rec || b.rec_regular_own)
+            && match b.key_class {
+                KeyClass::Own => true,
+                KeyClass::Absent => push,
+                _ => false,
+            };
+        if lies == 1 {
+            self.one_lie_msgs += 1;
+            self.labels.insert("msg:exactly-one-lie");
+        } else if lies == 0 {
+            self.labels.insert("msg:no-lie");
+        } else {
+            self.labels.insert("msg:several-lies");
+        }
+        let key_class = b.key_class.clone();
+        let exp_listen: Vec<Multiaddr> = if !push && b.has_rec { b.rec_addrs.clone() } else { b.listen_parsed.clone() };
+        let exp_agent = b.agent.clone();
+        let has_rec = b.has_rec;
+        let rec_bad = b.has_rec && b.rec_valid_own == Some(false);
+        let rec_env = b.rec_env.clone();
+        self.sent.push(Sent { conn: c, push, b });
+        if !settle {
+            self.labels.insert("burst(no settle between messages)");
+            return Ok(None);
+        }
+        if !self.settle() {
+            return Ok(Some("world did not settle".into()));
+        }
+        let got = self.drain_obs()?;
+        self.check_cache()?;
+        let mine: Vec<&identify::Info> = got.iter().filter(|(cc, _)| *cc == c).map(|(_, i)| i).collect();
+        let closed = self.conns[c].closed;
+        if mine.is_empty() {
+            self.labels.insert("outcome:not-reported");
+            if key_class == KeyClass::Foreign {
+                self.labels.insert("outcome:foreign-key-message-discarded");
+            }
+        } else {
+            self.labels.insert("outcome:reported");
+            if rec_bad && key_class == KeyClass::Own && !push {
+                self.labels.insert("outcome:bad-record-ignored-fallback-to-listenAddrs");
+            }
+            if push && key_class == KeyClass::Undecodable {
+                self.labels.insert("outcome:push-with-undecodable-key-merged-under-old-key");
+            }
+        }
+        // acceptance of fully honest messages (anti-vacuity)
+        if honest && !closed && (!push || had_info) {
+            let d = |this: &Self| json!({"msg": m, "push": push, "spec": format!("{spec:?}"), "got": format!("{mine:?}"), "conn_peer": own_peer.to_string(), "events": format!("{:?}", this.w.nodes[0].events.iter().rev().take(4).collect::<Vec<_>>())});
+            if mine.len() != 1 {
+                return Err(("C46:honest-message-not-reported-exactly-once".into(), d(self)));
+            }
+            let info = mine[0];
+            let mut ok = info.public_key.to_peer_id() == own_peer;
+            if let Some(a) = &exp_agent {
+                ok &= &info.agent_version == a;
+            }
+            if !push || !exp_listen.is_empty() {
+                ok &= info.listen_addrs == exp_listen;
+            }
+            if !push {
+                ok &= info.signed_peer_record.is_some() == has_rec;
+                if let Some(env) = &info.signed_peer_record {
+                    ok &= indep_verify(&env.clone().into_protobuf_encoding()) == indep_verify(&rec_env);
+                }
+            }
+            if !ok {
+                return Err(("C46:honest-message-reported-with-wrong-content".into(), d(self)));
+            }
+            self.honest_accepted += 1;
+            self.labels.insert(if push { "honest-push-accepted" } else { "honest-identify-accepted" });
+        } else if push && !had_info && !mine.is_empty() {
+            // a push cannot be merged into nothing; whatever was reported passed the safety oracle
+            self.labels.insert("outcome:push-reported-without-prior-identify");
+        }
+        Ok(None)
+    }
+}
+
+fn run_world(case: &Case) -> Outcome {
+    let log: Arc<Mutex<Vec<Obs>>> = Default::default();
+    let cache = case.cache as usize;
+    let signed_local = case.signed_local;
+    let lg = log.clone();
+    let w = World::new(
+        &[local_key().public().to_peer_id()],
+        move |_, _| {
+            let cfg = if signed_local { identify::Config::new_with_signed_peer_record("c46/1".into(), local_key()) } else { identify::Config::new("c46/1".into(), local_key().public()) };
+            Spy { inner: identify::Behaviour::new(cfg.with_interval(std::time::Duration::from_secs(3600)).with_cache_size(cache)), log: lg.clone() }
+        },
+        |c| c.with_idle_connection_timeout(std::time::Duration::from_secs(3600)),
+    );
+    let mut r = Run {
+        w,
+        log,
+        conns: vec![],
+        sent: vec![],
+        validated: vec![BTreeSet::new(); pool().len()],
+        labels: BTreeSet::new(),
+        received_total: 0,
+        one_lie_msgs: 0,
+        honest_accepted: 0,
+        listening: false,
+        cache_enabled: cache > 0,
+    };
+    let res = (|| -> Result<Option<String>, Fail> {
+        for op in &case.ops {
+            match op {
+                Op::Connect { peer, inbound } => {
+                    if r.conns.len() < 5 {
+                        // peers 0..3 of the pool are connection targets; the rest only appear in lies
+                        r.connect(*peer as usize % 4, *inbound)?;
+                        if *inbound {
+                            r.labels.insert("inbound-connection");
+                        }
+                    }
+                }
+                Op::Msg { conn, as_push, msg, settle } => {
+                    let open: Vec<usize> = (0..r.conns.len()).filter(|i| !r.conns[*i].closed).collect();
+                    if open.is_empty() {
+                        continue;
+                    }
+                    let c = open[pick(*conn, open.len())];
+                    if let Some(inc) = r.send(c, *as_push, msg, *settle)? {
+                        return Ok(Some(inc));
+                    }
+                }
+                Op::Close { conn } => {
+                    let open: Vec<usize> = (0..r.conns.len()).filter(|i| !r.conns[*i].closed).collect();
+                    if open.is_empty() {
+                        continue;
+                    }
+                    let c = open[pick(*conn, open.len())];
+                    r.conns[c].ctl.remote_close();
+                    r.conns[c].closed = true;
+                    r.labels.insert("connection-closed");
+                    r.settle();
+                    r.drain_obs()?;
+                }
+            }
+        }
+        if !r.settle() {
+            return Ok(Some("world did not settle".into()));
+        }
+        r.drain_obs()?;
+        r.check_cache()?;
+        Ok(None)
+    })();
+    let mut peers_seen = BTreeSet::new();
+    let mut multi = false;
+    for c in &r.conns {
+        if !peers_seen.insert(c.peer_idx) {
+            multi = true;
+        }
+    }
+    if multi {
+        r.labels.insert("several-connections-to-one-peer");
+    }
+    if peers_seen.len() > 1 {
+        r.labels.insert("several-remote-peers");
+    }
+    let labels: Vec<&'static str> = r.labels.iter().cloned().collect();
+    let nontrivial = r.one_lie_msgs > 0 && r.honest_accepted > 0;
+    drop(r);
+    release_phantoms();
+    match res {
+        Err((sig, detail)) => Outcome::fail(sig, detail),
+        Ok(Some(reason)) => Outcome::Inconclusive(reason),
+        Ok(None) => Outcome::pass_l(nontrivial, labels),
+    }
+}
+
+// ---------------------------------------------------------------------------------------------
+// parse sub-check
+
+#[derive(Clone, Debug, Serialize, Deserialize)]
+pub enum Payload {
+    /// message built from the spec
+    Spec,
+    /// the built message with byte mutations
+    Mutated(Vec<Mutation>),
+    /// arbitrary bytes instead of a message
+    Raw(Vec<u8>),
+}
+
+#[derive(Clone, Debug, Serialize, Deserialize)]
+pub struct ParseCase {
+    pub peer: u8,
+    pub push: bool,
+    pub msg: MsgSpec,
+    pub payload: Payload,
+    /// prior (honest) identify the push is merged into
+    pub prior: MsgSpec,
+    /// omit / corrupt the length prefix
+    pub frame: u8,
+}
+
+fn parse_case() -> BoxedStrategy<ParseCase> {
+    any::<bool>()
+        .prop_flat_map(|push| {
+            (
+                0u8..9,
+                Just(push),
+                msg_spec(push),
+                prop_oneof![
+                    6 => Just(Payload::Spec),
+                    3 => proptest::collection::vec(mutation(), 1..4).prop_map(Payload::Mutated),
+                    1 => proptest::collection::vec(any::<u8>(), 0..96).prop_map(Payload::Raw),
+                ],
+                msg_spec(false),
+                prop_oneof![12 => Just(0u8), 1 => Just(1u8), 1 => Just(2u8)],
+            )
+        })
+        .prop_map(|(peer, push, msg, payload, prior, frame)| ParseCase { peer, push, msg, payload, prior, frame })
+        .boxed()
+}
+
+fn frame(body: &[u8], how: u8) -> Vec<u8> {
+    match how {
+        1 => body.to_vec(),
+        2 => {
+            let mut v = uvarint(body.len() as u64 + 3);
+            v.extend_from_slice(body);
+            v
+        }
+        _ => lp(body),
+    }
+}
+
+fn recv_info(bytes: Vec<u8>) -> Result<Option<Result<identify::Info, String>>, String> {
+    vcore::runner::catch(move || identify::verif::recv_identify(Cursor::new(bytes)).now_or_never().map(|r| r.map_err(|e| format!("{e:?}"))))
+}
+
+fn recv_push(bytes: Vec<u8>) -> Result<Option<Result<identify::verif::PushInfo, String>>, String> {
+    vcore::runner::catch(move || identify::verif::recv_push(Cursor::new(bytes)).now_or_never().map(|r| r.map_err(|e| format!("{e:?}"))))
+}
+
+fn run_parse(case: &ParseCase) -> Outcome {
+    let own = case.peer as usize % pool().len();
+    let own_peer = pool_peer(own);
+    let mut labels: BTreeSet<&'static str> = BTreeSet::new();
+    let b = build_msg(&case.msg, 1, own);
+    if b.rec_regular_own && b.rec_valid_own != Some(true) {
+        return Outcome::fail("harness:regular-record-does-not-verify", json!(format!("{:?}", case.msg)));
+    }
+    let (body, exact) = match &case.payload {
+        Payload::Spec => (b.bytes.clone(), true),
+        Payload::Mutated(ms) => {
+            let x = apply_mutations(&b.bytes, ms);
+            let same = x == b.bytes;
+            (x, same)
+        }
+        Payload::Raw(r) => (r.clone(), false),
+    };
+    let exact = exact && case.frame == 0 && body.len() <= MAX_MSG;
+    labels.insert(match (&case.payload, exact) {
+        (_, true) => "payload:as-built",
+        (Payload::Raw(_), _) => "payload:arbitrary-bytes",
+        _ => "payload:mutated-or-misframed",
+    });
+    for l in &b.labels {
+        labels.insert(l);
+    }
+    let wire = frame(&body, case.frame);
+    let mut handler = identify::verif::new_handler(own_peer, local_key().public());
+
+    // the info the connection already holds when a push arrives: an honest identify reply
+    let mut prior_info: Option<identify::Info> = None;
+    if case.push {
+        let mut p = case.prior.clone();
+        p.key = KeySpec::Own;
+        let pb = build_msg(&p, 0, own);
+        match recv_info(lp(&pb.bytes)) {
+            Err(p) => return Outcome::fail("C46:panic-in-receive-path", json!({"panic": p})),
+            Ok(None) => return Outcome::fail("harness:receive-pending-on-cursor", json!(null)),
+            Ok(Some(Ok(i))) => {
+                if handler.verif_handle_incoming_info(&i) {
+                    prior_info = Some(i);
+                }
+            }
+            Ok(Some(Err(_))) => {}
+        }
+        if prior_info.is_none() {
+            labels.insert("push:no-prior-info");
+        }
+    }
+
+    // receive
+    let info: Option<identify::Info> = if case.push {
+        match recv_push(wire.clone()) {
+            Err(p) => return Outcome::fail("C46:panic-in-receive-path", json!({"panic": p, "wire": format!("{wire:02x?}")})),
+            Ok(None) => return Outcome::fail("harness:receive-pending-on-cursor", json!(null)),
+            Ok(Some(Err(_))) => {
+                labels.insert("recv:error");
+                None
+            }
+            Ok(Some(Ok(pi))) => {
+                // `merge` is the public API the handler applies to the info it holds
+                match prior_info.clone() {
+                    Some(mut i) => match vcore::runner::catch(move || {
+                        i.merge(pi);
+                        i
+                    }) {
+                        Ok(i) => Some(i),
+                        Err(p) => return Outcome::fail("C46:panic-in-merge", json!({"panic": p})),
+                    },
+                    None => None,
+                }
+            }
+        }
+    } else {
+        match recv_info(wire.clone()) {
+            Err(p) => return Outcome::fail("C46:panic-in-receive-path", json!({"panic": p, "wire": format!("{wire:02x?}")})),
+            Ok(None) => return Outcome::fail("harness:receive-pending-on-cursor", json!(null)),
+            Ok(Some(Err(_))) => {
+                labels.insert("recv:error");
+                None
+            }
+            Ok(Some(Ok(i))) => Some(i),
+        }
+    };
+    let honest = exact
+        && b.lies(case.push, &own_peer) == 0
+        && b.listen_all_parse
+        && (!b.has_rec || b.rec_regular_own)
+        && match b.key_class {
+            KeyClass::Own => true,
+            KeyClass::Absent => case.push,
+            _ => false,
+        }
+        && (!case.push || prior_info.is_some());
+    let lies = b.lies(case.push, &own_peer);
+    let Some(info) = info else {
+        if honest {
+            return Outcome::fail("C46:honest-message-not-decoded", json!({"case": format!("{case:?}")}));
+        }
+        let v: Vec<&'static str> = labels.into_iter().collect();
+        return Outcome::pass_l(false, v);
+    };
+    let d = |what: &str| json!({"what": what, "info": format!("{info:?}"), "own_peer": own_peer.to_string(), "case": format!("{case:?}")});
+
+    // protocol-level: a record is only kept / its addresses only used if it verifies for the
+    // peer named by the message's own public key (reply path)
+    if !case.push {
+        let key_peer = info.public_key.to_peer_id();
+        if let Some(env) = &info.signed_peer_record {
+            match indep_verify(&env.clone().into_protobuf_encoding()) {
+                RecTruth::Valid { peer, .. } if peer == key_peer => {}
+                RecTruth::Unknown => {}
+                _ => return Outcome::fail("C46:parsed-signed-record-not-valid-for-key", d("signed_peer_record kept")),
+            }
+        }
+        if exact {
+            for a in &info.listen_addrs {
+                let in_listen = b.listen_parsed.contains(a);
+                let in_rec = b.rec_addrs.contains(a);
+                if !in_listen && !in_rec {
+                    return Outcome::fail("C46:untraceable-listen-addr-parsed", d(&a.to_string()));
+                }
+                if !in_listen {
+                    // the record must verify for the peer of the key the message carries
+                    let ok = match indep_verify(&b.rec_env) {
+                        RecTruth::Valid { peer, .. } => peer == key_peer,
+                        RecTruth::Invalid => false,
+                        RecTruth::Unknown => true,
+                    };
+                    if !ok {
+                        return Outcome::fail("C46:addresses-of-unverified-record-parsed", d(&a.to_string()));
+                    }
+                }
+            }
+        }
+    }
+
+    // handler acceptance test (real), then the behaviour's filter (real)
+    let accepted = match vcore::runner::catch(move || {
+        let a = handler.verif_handle_incoming_info(&info);
+        (a, info)
+    }) {
+        Ok((a, i)) => (a, i),
+        Err(p) => return Outcome::fail("C46:panic-in-acceptance-test", json!({"panic": p})),
+    };
+    let (accepted, info) = accepted;
+    let d = |what: &str| json!({"what": what, "info": format!("{info:?}"), "own_peer": own_peer.to_string(), "case": format!("{case:?}")});
+    if accepted {
+        labels.insert("accepted");
+        if info.public_key.to_peer_id() != own_peer {
+            return Outcome::fail("C46:reported-key-does-not-derive-connection-peer", d("accepted"));
+        }
+        if exact && b.key_class == KeyClass::Foreign {
+            return Outcome::fail("C46:content-of-foreign-key-message-reported", d("accepted"));
+        }
+        let mut reported = info.listen_addrs.clone();
+        let dropped: Vec<Multiaddr> = reported.iter().filter(|a| !identify::verif::multiaddr_matches_peer_id(a, &own_peer)).cloned().collect();
+        reported.retain(|a| identify::verif::multiaddr_matches_peer_id(a, &own_peer));
+        if !dropped.is_empty() {
+            labels.insert("filter:dropped-foreign-p2p-addr");
+        }
+        for a in &reported {
+            if names_other_peer(a, &own_peer) {
+                return Outcome::fail("C46:reported-listen-addr-names-other-peer", d(&a.to_string()));
+            }
+        }
+        // the filter must not eat addresses the statement allows (keeps the oracle non-vacuous)
+        for a in &dropped {
+            if !names_other_peer(a, &own_peer) {
+                return Outcome::fail("C46:filter-dropped-an-address-of-the-peer", d(&a.to_string()));
+            }
+        }
+        if exact && !case.push {
+            for a in &reported {
+                if !b.listen_parsed.contains(a) && b.rec_valid_own == Some(false) {
+                    return Outcome::fail("C46:addresses-of-unverified-record-reported", d(&a.to_string()));
+                }
+            }
+            if let Some(env) = &info.signed_peer_record {
+                match indep_verify(&env.clone().into_protobuf_encoding()) {
+                    RecTruth::Valid { peer, .. } if peer == own_peer => {}
+                    RecTruth::Unknown => {}
+                    _ => return Outcome::fail("C46:reported-signed-record-not-valid-for-peer", d("record")),
+                }
+            }
+        }
+        if honest {
+            let exp: Vec<Multiaddr> = if !case.push && b.has_rec { b.rec_addrs.clone() } else { b.listen_parsed.clone() };
+            let mut ok = true;
+            if !case.push || !exp.is_empty() {
+                ok &= reported == exp;
+            }
+            if let Some(a) = &b.agent {
+                ok &= &info.agent_version == a;
+            }
+            if let Some(a) = &b.pver {
+                ok &= &info.protocol_version == a;
+            }
+            if !case.push || !b.protocols.is_empty() {
+                ok &= info.protocols.iter().map(|p| p.to_string()).collect::<Vec<_>>() == b.protocols;
+            }
+            if !ok {
+                return Outcome::fail("C46:honest-message-reported-with-wrong-content", d("content"));
+            }
+            labels.insert("honest-accepted");
+        }
+    } else {
+        labels.insert("rejected");
+        if honest {
+            return Outcome::fail("C46:honest-message-rejected", d("rejected"));
+        }
+    }
+    let nontrivial = exact && (lies == 1 || (honest && accepted));
+    if lies == 1 && exact {
+        labels.insert("msg:exactly-one-lie");
+    }
+    let v: Vec<&'static str> = labels.into_iter().collect();
+    Outcome::pass_l(nontrivial, v)
+}
+
+pub fn run(ctx: &mut Ctx) {
+    ctx.assume("world: transport, muxer and every remote peer are simulated (simswarm); the peer id a connection is authenticated as is chosen by the harness; the identify behaviour and handler, the Swarm, multistream-select and the prost codec are the production code; the spy wrapper only copies what the behaviour returns from poll");
+    ctx.assume("libp2p_identity key decoding / signature verification and multiaddr parsing are trusted (used by the independent record verifier); envelope and record framing, domain separation and the identify protobuf are re-implemented with vcore::refcodec");
+    ctx.assume("'names a different peer' = the last component is /p2p/<X>, X != the connection's peer (DESIGN §9); pushes that omit the key or carry an undecodable key are merged under the already authenticated key, which the statement allows");
+    ctx.check::<Case>(
+        "world",
+        "1 identify swarm, 1..5 connections (out/in, several per peer) to 4 of 9 pool identities, 2..12 ops; each message: key in {own, other, missing, empty, garbage, mutated own}, record in {none, valid own, foreign signer, subject != signer, tampered payload/signature, swapped envelope key, wrong domain / payload type, garbage, byte-mutated}, addresses with /p2p/own, /p2p/other, relay and unparsable forms, sent as the identify reply or as a push, with or without settling in between; non-trivial = the case contains a message with exactly one lie AND a fully honest message that was reported with exactly the sent content",
+        ctx.n(6000, 200_000),
+        &case_strategy,
+        &run_world,
+    );
+    ctx.check::<ParseCase>(
+        "parse",
+        "one identify reply or push (merged into an accepted honest prior) built like in `world`, optionally byte-mutated, mis-framed or replaced by arbitrary bytes, through recv_identify/recv_push -> Handler::handle_incoming_info -> multiaddr_matches_peer_id filter (cfg(libp2p_verif) shims); never panics; non-trivial = unmodified message with exactly one lie, or fully honest message accepted with exactly the sent content",
+        ctx.n(60_000, 2_000_000),
+        &parse_case,
+        &run_parse,
+    );
+}
